@@ -22,6 +22,10 @@ pub struct Round {
     /// keeps its socket open), 3 garbage bytes, 4 non-UTF-8 key, 5 wrong argument count,
     /// 6 well-formed command then abrupt close with an unread reply
     pub way: u8,
+    /// the over-limit client of this round does not wait: it aborts its connection (RST) while
+    /// it is still in the listen backlog, i.e. before the server has accepted it
+    #[serde(default)]
+    pub abort_waiting: bool,
 }
 
 #[derive(Clone, Debug, Serialize, Deserialize)]
@@ -37,7 +41,7 @@ fn strategy(tier: Tier) -> BoxedStrategy<LimitCase> {
             (
                 Just(n),
                 proptest::collection::vec(
-                    (prop_oneof![1 => Just(true), 2 => Just(false)], any::<u8>(), 0u8..7).prop_map(|(probe, victim, way)| Round { probe, victim, way }),
+                    (prop_oneof![1 => Just(true), 2 => Just(false)], any::<u8>(), 0u8..7, prop_oneof![2 => Just(false), 1 => Just(true)]).prop_map(|(probe, victim, way, abort_waiting)| Round { probe, victim, way, abort_waiting }),
                     (n as usize)..=(3 * n as usize + 1),
                 ),
             )
@@ -111,7 +115,13 @@ fn scenario(c: &LimitCase, addr: &str, out: &mut Outcome) -> Verdict {
                     );
                 }
             }
-            waiting = Some(w);
+            if r.abort_waiting {
+                // reset while still in the backlog: the server later accepts a dead socket
+                w.abort();
+                out.label("over-limit-client-aborted-before-accept");
+            } else {
+                waiting = Some(w);
+            }
         }
         // end one served connection
         let vi = crate::gen::pick(r.victim, served.len());
@@ -271,7 +281,7 @@ pub fn prop() -> Prop<LimitCase> {
     Prop {
         id: "C15",
         level: "exploration",
-        rule: "Cases: max_connections = N in 1..5 (6 thorough) and a scenario of N..3N+1 rounds against an in-process server. First N connections are opened and each gets a reply. Every round optionally probes with an over-limit client (connects, sends GET, must receive NOTHING for 300 ms), then ends a generated served connection in a generated way (clean close; close with a half-sent frame; malformed/unknown command, garbage bytes, non-UTF-8 key, wrong argument count - the server closes and the client keeps its socket open; abrupt close with an unread reply), then the waiting client (or a new one) must be served within 10 s. Finally everything is closed, N fresh connections must all be served concurrently, and one more must again stay silent. Non-trivial: at least N faulty endings and at least one over-limit probe; distinct = distinct hash of the case.",
+        rule: "Cases: max_connections = N in 1..5 (6 thorough) and a scenario of N..3N+1 rounds against an in-process server. First N connections are opened and each gets a reply. Every round optionally probes with an over-limit client (connects, sends GET, must receive NOTHING for 300 ms; a third of these clients then abort their connection with RST while still in the listen backlog), then ends a generated served connection in a generated way (clean close; close with a half-sent frame; malformed/unknown command, garbage bytes, non-UTF-8 key, wrong argument count - the server closes and the client keeps its socket open; abrupt close with an unread reply), then the waiting client (or a new one) must be served within 10 s. Finally everything is closed, N fresh connections must all be served concurrently, and one more must again stay silent. Non-trivial: at least N faulty endings and at least one over-limit probe; distinct = distinct hash of the case.",
         assumptions: &[
             "the negative probe (silence for 300 ms) can only miss violations, never invent one: a reply needs an (N+1)-th handler",
             "a missed positive bound (10 s) counts as a violation only if a calibration round trip on an idle second server taken right afterwards is fast (< 500 ms), else the case is inconclusive",
